@@ -128,6 +128,17 @@ class ExecExpr(ExecCore):
             return SV(VNone, Ty.TFunc('%s:%s' % (v.__module__, v.__qualname__)), v, True)
         raise Unsupported('cannot lift %r' % (type(v),))
 
+    def shared_container(self, st, clsq, attr, v):
+        """a class-level list / dict / set that some function of the package mutates: process-wide STATE.  It is an object
+        that existed at entry, of unknown contents (whatever earlier calls left in it); writes to it are writes to the
+        pre-state heap and show up in the frame obligations"""
+        a = z3.Int('g_%s_%s' % (clsq.replace(':', '_').replace('.', '_'), attr))
+        t = VRef(a)
+        ty = Ty.TDict(Ty.ANY, Ty.ANY) if isinstance(v, dict) else (Ty.TList(Ty.ANY) if isinstance(v, list) else Ty.TSet(Ty.ANY))
+        st.assume(And(a >= 0, a < z3.Int('next0')))
+        st.assume(shape(st, t, ty))
+        return SV(t, ty)
+
     def global_value(self, modname, name, st):
         kind, payload = front.resolve_global(modname, name)
         if kind == 'const':
@@ -229,7 +240,7 @@ class ExecExpr(ExecCore):
             if hasattr(c, attr):
                 v = getattr(c, attr)
                 if front.is_shared_mutable(attr, v):
-                    raise Unsupported('class attribute %s.%s is a container that the package mutates (shared state)' % (ty.name, attr))
+                    return [(st, self.shared_container(st, ty.name, attr, v))], []
                 if front.is_const_data(v) or isinstance(v, type) or _const_with_classes(v):
                     return [(st, self.lift_py(v, st))], []
                 kind, payload = front.classify(v)
@@ -274,12 +285,16 @@ class ExecExpr(ExecCore):
                     mod = getattr(member, '__module__', None) or owner.__module__
                     return [(st, SV(VNone, Ty.TFunc('%s:%s' % (mod, member.__qualname__), recv=base)))], []
                 if front.is_shared_mutable(attr, member):
-                    raise Unsupported('class member %s.%s is a container that the package mutates (shared state)' % (ty.cls, attr))
+                    return [(st, self.shared_container(st, front.cls_qual(owner), attr, member))], []
                 if front.is_const_data(member) or isinstance(member, type):
                     return [(st, self.lift_py(member, st))], []
                 raise Unsupported('class member %s.%s of type %s' % (ty.cls, attr, type(member).__name__))
             if self.class_assigns_field(ty.cls, attr):
-                raise Unsupported('field %s of %s is assigned in the class but not declared in the sidecar' % (attr, ty.cls))
+                # a field the class assigns somewhere but the sidecar does not declare: any value, or not there yet
+                term = st.field(attr)[va(base.term)]
+                st.assume(shape(st, term, Ty.ANY))
+                gone = st.copy()
+                return [(st, SV(term, Ty.ANY))], [self.raised(gone, 'builtins:AttributeError')]
             # the static class is an upper bound: a registered subclass may declare the member
             subs = self.subclasses_with_field(ty.cls, attr)
             if subs:
@@ -357,7 +372,9 @@ class ExecExpr(ExecCore):
                 raise Unsupported('class %s overrides __setattr__' % ty.cls)
         ft = field_type(ty.cls, attr)
         if ft is None:
-            raise Unsupported('store to undeclared field %s of %s' % (attr, ty.cls))
+            if not self.class_assigns_field(ty.cls, attr):
+                raise Unsupported('store to undeclared field %s of %s' % (attr, ty.cls))
+            ft = Ty.ANY     # assigned by the class, not declared in the sidecar: untyped field
         if not compat(v.ty, ft):
             self.oblige(st, shape(st, v.term, ft), 'fieldtype[%s.%s]' % (ty.cls.split(':')[1], attr), 'fieldtype')
         st.heap[attr] = z3.Store(st.field(attr), z3.simplify(va(base.term)), v.term)
